@@ -11,6 +11,7 @@ AssertsQuick == { <<S1(0, 0)>>, <<S1(0, 0), S1(0, 7)>>, <<SQ(0, 1, 2, 4)>>, <<S1
                   <<PA(0, 1, 4), S1(1, 0)>>, <<S1(1, 6), S1(0, 0)>>,
                   \* assertions whose last instances fall into the exempt rows (only the assertion constrains them)
                   <<PA(0, 3, 4), S1(1, 7)>>, <<SQ(0, 1, 2, 4), S1(1, 0)>> }
-AuxQuick == { <<>>, <<[width |-> 1, rands |-> 1, src |-> <<0>>]>> }
+\* (the third choice has more auxiliary than main columns on the one-column shapes)
+AuxQuick == { <<>>, <<[width |-> 1, rands |-> 1, src |-> <<0>>]>>, <<[width |-> 2, rands |-> 1, src |-> <<0, 0>>]>> }
 AuxMore  == AuxQuick \cup { <<[width |-> 2, rands |-> 2, src |-> <<1, 0>>]>> }
 =============================================================================
